@@ -419,7 +419,7 @@ def holdgrid(pairs=None, rnd=None, nrand=0):
     for lh, rh in pairs:
         h = min(lh, rh)
         for d in DIRS:
-            for pat in ("silent", "ka", "upd", "late", "writes"):
+            for pat in ("silent", "ka", "upd", "late", "writes", "slowka"):
                 if pat != "silent" and d == "in" and (lh, rh) not in ((3, 90), (0, 90), (90, 0), (10, 10)):
                     continue
                 b = Sb("hold-%d-%d-%s-%s" % (lh, rh, d, pat), [peer(hold=lh)])
@@ -444,6 +444,11 @@ def holdgrid(pairs=None, rnd=None, nrand=0):
                         else:
                             b.upd(c)
                     b.advu(H - 1).advu(1)
+                elif pat == "slowka":
+                    # the remote takes its time in OpenConfirm; the hold timer restarts at its KEEPALIVE
+                    b.advu(H // 2)
+                    b.ka(c)
+                    b.advu(H - 1).upd(c).advu(H - 1).advu(1)
                 elif pat == "late":
                     # remote's KEEPALIVE arrives 1 unit after expiry in OpenConfirm
                     b.advu(H).advu(1)
@@ -677,6 +682,25 @@ def open_bodies(rnd, remoteAS, localID, limit=None):
     }
     for n, pl in plist.items():
         cases.append(("pl-" + n, open_body(remoteAS, 90, ids[0], params=pl)))
+    # the 2-octet field carrying the low 16 bits of a 4-octet AS, or the high ones
+    if remoteAS > 65535:
+        cases.append(("as2-low16", open_body(remoteAS, 90, ids[0], as2=remoteAS & 0xFFFF)))
+        cases.append(("as2-high16", open_body(remoteAS, 90, ids[0], as2=remoteAS >> 16)))
+    # random parameter layouts: 1-3 capability parameters with 1-3 capabilities each, the 4-octet-AS
+    # capability in a random position (or missing, or wrong)
+    pool = [cap(1, [0, 1, 0, 1]), cap(1, [0, 2, 0, 1]), cap(2, []), cap(64, [0, 120, 0, 1, 1, 0]), cap(69, [0, 1, 1, 3]),
+            cap(70, []), cap(128, []), cap(73, [1, 65, 0])]
+    for i in range(24):
+        params = [[rnd.choice(pool) for _ in range(rnd.randint(1, 3))] for _ in range(rnd.randint(1, 3))]
+        kind = rnd.choice(["good", "good", "good", "missing", "wrong"])
+        if kind != "missing":
+            pi = rnd.randrange(len(params))
+            params[pi].insert(rnd.randint(0, len(params[pi])), good4 if kind == "good" else cap4(remoteAS ^ 256))
+        pl = []
+        for pr in params:
+            cb = [x for c in pr for x in c]
+            pl += [2, len(cb)] + cb
+        cases.append(("layout%d-%s" % (i, kind), open_body(remoteAS, 90, ids[0], params=pl)))
     # perturbations of a good body: optlen, truncation at every offset, trailing garbage
     good = open_body(remoteAS, 90, ids[0], caps=[cap(1, [0, 1, 0, 1]), good4])
     for dlt in (-1, 1, -9, 255):
@@ -1135,4 +1159,171 @@ def stop_dial_race(n=12):
                 b.steps.append(multi(*subs))
                 b.adv(1)
                 out.append(b.tag("stop", "dialrace").build())
+    return out
+
+
+def damping_exact():
+    """C12: probes placed 1/3 ms before and exactly at every expected end of hold-down; errors exactly at the
+    amnesia threshold; Cease / TCP faults in between must not touch the history."""
+    out = []
+
+    def expected(delays_hist):
+        pass
+
+    def run(name, plan, passive=True):
+        """plan: list of items; ("err", code) causes a protocol error at once (needs an acceptable peer),
+        ("wait", units), ("cease",), ("eof",)"""
+        b = Sb("dampx-%s" % name, [peer(passive=passive)])
+        b.start()
+        for it in plan:
+            if it[0] == "err":
+                c = b.connect()
+                b.open(c).ka(c).notif(c, it[1], 0)
+            elif it[0] == "cease":
+                c = b.connect()
+                b.open(c).ka(c).notif(c, 6, 0)
+            elif it[0] == "eof":
+                c = b.connect()
+                b.open(c).ka(c).rclose(c)
+            elif it[0] == "probe":
+                b.connect()
+            else:
+                b.advu(it[1])
+        b.adv(1)
+        out.append(b.tag("damp", "exact").build())
+
+    def held(d):
+        """after an error with expected delay d (s): refused 1 unit before the end, accepted at the end"""
+        return [("wait", sec(d) - 1), ("probe",), ("wait", 1)]
+
+    # 60, 120, 240, 300 (cap), then the next error comes exactly 300 s after the previous one: amnesia -> 60
+    plan = [("err", 3)] + held(60) + [("err", 2)] + held(120) + [("err", 4)] + held(240) + [("err", 5)] + held(300) + \
+           [("err", 1)] + held(60) + [("err", 7)] + held(120) + [("cease",)]
+    run("ladder", plan)
+    # one unit short of the amnesia threshold: still doubling
+    plan = [("err", 3)] + held(60) + [("wait", sec(240) - 1), ("err", 3)] + held(120) + [("cease",)]
+    run("amnesia-minus", plan)
+    plan = [("err", 3)] + held(60) + [("wait", sec(240)), ("err", 3)] + held(60) + [("cease",)]
+    run("amnesia-exact", plan)
+    # a Cease or TCP fault between two protocol errors neither resets nor extends anything
+    for mid in ("cease", "eof"):
+        plan = [("err", 3)] + held(60) + [("wait", sec(100)), (mid,), ("wait", sec(150)), ("err", 3)] + held(60) + [("cease",)]
+        run("mid-%s-amnesia" % mid, plan)         # 310 s after the first error: back to 60
+        plan = [("err", 3)] + held(60) + [("wait", sec(100)), (mid,), ("wait", sec(100)), ("err", 3)] + held(120) + [("cease",)]
+        run("mid-%s-double" % mid, plan)          # 260 s after the first error: doubled
+    # active peer: the first dial after the hold-down starts exactly at its end
+    plan = [("err", 3), ("wait", sec(60) - 1), ("wait", 1), ("wait", sec(5))]
+    run("active-redial", plan, passive=False)
+    return out
+
+
+def message_grid(rnd, n):
+    """C05/C09: every message type with small systematic bodies, in every state and direction."""
+    out = []
+    bodies = [[], [0], [6, 0], [7, 0, 1], [7, 0, 255, 255], [1, 1], [2, 7, 65, 4], [4, 0, 1, 0, 3, 1, 2, 3, 4, 0], [255] * 5,
+              [3, 11, 0], [5, 3, 9, 9, 9]]
+    for i in range(n):
+        st, d = rnd.choice(STATES), rnd.choice(DIRS)
+        ty = rnd.choice([1, 2, 3, 3, 3, 4, 5, 0])
+        body = rnd.choice(bodies)
+        b = Sb("grid-%d-%s-%s-t%d-%d" % (i, st, d, ty, len(body)), [peer("p1", "10.0.0.2"), peer("p2", "10.0.0.3", remoteAS=65003)])
+        b.start()
+        c = b.to_state(st, direction=d)
+        b.send(c, frame(ty, body)).adv(1)
+        c2 = b.connect("p2")
+        b.open(c2, "p2", rid="10.0.0.3").ka(c2).upd(c2).close()
+        out.append(b.tag("fuzz", "grid").build())
+    return out
+
+
+def gated():
+    """C10/C01: Close / DeletePeer / AddPeer while an FSM is held inside a plugin callback (the application
+    releases it later), so that the peer manager is busy at the interesting moments."""
+    out = []
+
+    def rel(b, name, k):
+        return b.add("release", peer="p1", call=name, w=k)
+
+    for how in ("close", "delete", "delete+add"):
+        def stop(b):
+            if how == "close":
+                b.close()
+            else:
+                b.delete()
+        # (1) outbound FSM held in GetCapabilities (2nd invocation), inbound in OpenSent gets its OPEN after the stop
+        b = Sb("gate-getcaps-%s" % how, [peer(gates=["GetCapabilities#2"])])
+        b.start()
+        ci = b.connect()
+        co = b.dial_ok()
+        stop(b)
+        b.open(ci)
+        rel(b, "GetCapabilities", 2)
+        b.adv(1)
+        out.append(b.tag("stop", "gate").build())
+        # (2) held in OnOpenMessage
+        for d in DIRS:
+            b = Sb("gate-onopen-%s-%s" % (how, d), [peer(gates=["OnOpenMessage#1"])])
+            b.start()
+            c = b.to_state("openSent", direction=d)
+            b.open(c)
+            stop(b)
+            b.ka(c)
+            rel(b, "OnOpenMessage", 1)
+            b.adv(1)
+            out.append(b.tag("stop", "gate").build())
+        # (3) held in OnEstablished: writes from the application, then stop
+        for d in DIRS:
+            b = Sb("gate-onest-%s-%s" % (how, d), [peer(gates=["OnEstablished#1"], estWrites=[[1, 2]])])
+            b.start()
+            c = b.to_state("openConfirm", direction=d)
+            b.ka(c)
+            b.upd(c)
+            stop(b)
+            rel(b, "OnEstablished", 1)
+            b.adv(1)
+            out.append(b.tag("stop", "gate").build())
+        # (4) held in the update handler
+        b = Sb("gate-update-%s" % how, [peer(gates=["Update#2"])])
+        b.start()
+        c = b.establish(direction="in")
+        b.upd(c).upd(c).upd(c).write("p1", 1, [7])
+        stop(b)
+        rel(b, "Update", 2)
+        b.adv(1)
+        out.append(b.tag("stop", "gate").build())
+        # (5) held in OnClose while the stop is in progress; the release races with new API calls and a new
+        # inbound connection (nothing that needs the server lock may be issued while the stop holds it: the
+        # bubble cannot wait for a goroutine blocked on a mutex)
+        for end in ("cease", "stop"):
+            b = Sb("gate-onclose-%s-%s" % (how, end), [peer(gates=["OnClose#1"])])
+            b.start()
+            c = b.establish(direction="in")
+            if end == "cease":
+                b.notif(c, 6, 0)
+            if how == "close":
+                b.close()
+            else:
+                b.delete()
+            subs = [step("release", peer="p1", call="OnClose", w=1)]
+            if how == "delete+add":
+                subs.append(step("addPeer", peer="p1"))
+            if how != "close":
+                c2 = b.newconn()
+                subs.append(step("connect", conn=c2, src="10.0.0.2:40000", dst="10.0.0.1:179"))
+                subs.append(step("listPeers"))
+            b.steps.append(multi(*subs))
+            b.adv(6)
+            if how == "delete+add":
+                c3 = b.connect()
+                b.open(c3).ka(c3).adv(1)
+            out.append(b.tag("stop", "gate").build())
+    # collision while the would-be loser is held in OnOpenMessage / GetCapabilities
+    for lid in ("10.0.0.1", "10.0.0.9"):
+        b = Sb("gate-collision-%s" % lid, [peer(gates=["OnOpenMessage#2"])], routerID=lid)
+        b.start()
+        co, ci = b.dial_ok(), b.connect()
+        b.open(co).open(ci).ka(co)
+        rel(b, "OnOpenMessage", 2)
+        b.ka(ci).adv(1)
+        out.append(b.tag("collision", "gate").build())
     return out
